@@ -11,7 +11,7 @@ use std::time::{Duration, Instant};
 use hipstr::verif::Smart;
 use loom::cell::UnsafeCell;
 use loom::sync::mpsc::{channel, Receiver, Sender};
-use loom::thread::ThreadId;
+use loom::thread::{JoinHandle, ThreadId};
 
 use crate::prog::{Act, Prog, Start};
 
@@ -130,6 +130,13 @@ impl Drop for Payload {
             *self.tracker.freed_by.lock().unwrap_or_else(|e| e.into_inner()) =
                 Some(loom::thread::current().id());
             assert!(n <= 1, "monitor: double-free: original payload dropped {n} times");
+            // `live` is decremented BEFORE a handle is dropped / consumed by `try_unwrap`, so a
+            // legitimate free (last handle) always sees 0 here
+            let alive = self.tracker.live();
+            assert!(
+                alive == 0,
+                "monitor: buffer freed while {alive} handle(s) still alive (share count lost an increment)"
+            );
         }
     }
 }
@@ -172,6 +179,26 @@ struct ThreadOut {
     handles: Vec<H>,
     copies: Vec<H>,
     rx: Option<Receiver<H>>,
+    /// lender only: what its borrowers returned when it joined them
+    joined: Vec<(usize, ThreadOut)>,
+}
+
+/// What a program thread starts with.
+struct ThreadIn {
+    t: usize,
+    acts: Vec<Act>,
+    handles: Vec<H>,
+    txs: Vec<Sender<H>>,
+    rx: Option<Receiver<H>>,
+    tracker: StdArc<Tracker>,
+    /// lender: its last handle, moved to a stable heap slot (`Box::into_raw`) so that the
+    /// borrowers can hold `&handle` while the lender's own Vec grows; taken back at `join`
+    lent: Option<*mut H>,
+    /// borrower: the shared reference (a `&Smart` to the lender's slot; valid until the lender's
+    /// `join`, which waits for the end of this thread exactly like `thread::scope`)
+    borrowed: Option<*const H>,
+    /// lender: the borrower threads to join
+    to_join: Vec<(usize, JoinHandle<ThreadOut>)>,
 }
 
 fn uaf_check(tracker: &Tracker, t: usize, what: &str) {
@@ -182,17 +209,12 @@ fn uaf_check(tracker: &Tracker, t: usize, what: &str) {
     }
 }
 
-fn thread_body(
-    t: usize,
-    acts: Vec<Act>,
-    mut handles: Vec<H>,
-    txs: Vec<Sender<H>>,
-    rx: Option<Receiver<H>>,
-    tracker: StdArc<Tracker>,
-) -> ThreadOut {
+fn thread_body(input: ThreadIn) -> ThreadOut {
+    let ThreadIn { t, acts, mut handles, txs, rx, tracker, mut lent, borrowed, mut to_join } = input;
     let me = loom::thread::current().id();
     let mut results = Vec::new();
     let mut copies = Vec::new();
+    let mut joined = Vec::new();
     let mut i_freed = false;
     // result of a `drop`/`unwrap`: did the free of the original payload run in this thread
     // during the call just made?
@@ -202,42 +224,98 @@ fn thread_body(
         i_freed = mine;
         r
     };
-    for a in acts {
-        if a == Act::Recv {
-            let h = rx
-                .as_ref()
-                .expect("recv without channel")
-                .recv()
-                .expect("HIPVERIF internal: channel closed");
-            handles.push(h);
-            continue;
+    // a clone made through `src` (own handle, lent slot or borrowed reference)
+    let do_clone = |src: &Sm, handles: &mut Vec<H>, copies: &mut Vec<H>, tracker: &Tracker| -> usize {
+        let c = H::new(Sm::clone(src));
+        if c.payload_ptr() == src.as_ref() as *const Payload {
+            let now = tracker.live.fetch_add(1, StdOrd::SeqCst) + 1;
+            tracker.max_live.fetch_max(now, StdOrd::SeqCst);
+            tracker.shared_clones.fetch_add(1, StdOrd::SeqCst);
+            handles.push(c);
+            0
+        } else {
+            copies.push(c);
+            1
         }
-        if handles.is_empty() {
+    };
+    for a in acts {
+        match a {
+            Act::Recv => {
+                let h = rx
+                    .as_ref()
+                    .expect("recv without channel")
+                    .recv()
+                    .expect("HIPVERIF internal: channel closed");
+                handles.push(h);
+                continue;
+            }
+            Act::Join => {
+                // a real join (thread::scope): synchronises borrower -> lender
+                for (b, j) in to_join.drain(..) {
+                    joined.push((b, j.join().expect("HIPVERIF internal: borrower thread panicked")));
+                }
+                if let Some(p) = lent.take() {
+                    // SAFETY: the slot comes from `Box::into_raw` in `run_once`; every thread that
+                    // held a reference to it has terminated
+                    handles.push(*unsafe { Box::from_raw(p) });
+                }
+                continue;
+            }
+            Act::CloneRef | Act::ReadRef => {
+                let Some(r) = borrowed else {
+                    results.push(9);
+                    continue;
+                };
+                // SAFETY: see `ThreadIn::borrowed`
+                let src: &Sm = unsafe { &(*r).0 };
+                if a == Act::ReadRef {
+                    uaf_check(&tracker, t, "readref");
+                    results.push(src.as_ref().get());
+                } else {
+                    uaf_check(&tracker, t, "cloneref");
+                    results.push(do_clone(src, &mut handles, &mut copies, &tracker));
+                }
+                continue;
+            }
+            _ => {}
+        }
+        if handles.is_empty() && lent.is_none() {
             results.push(9);
             continue;
         }
         match a {
             Act::Read => {
                 uaf_check(&tracker, t, "read");
-                let h = handles.last().unwrap();
-                results.push(h.0.as_ref().get());
+                // SAFETY: the lent slot is only read through `&` while it is lent
+                let src: &Sm = match lent {
+                    Some(p) => unsafe { &(*p).0 },
+                    None => &handles.last().unwrap().0,
+                };
+                results.push(src.as_ref().get());
             }
             Act::Clone => {
                 uaf_check(&tracker, t, "clone");
-                let h = handles.last().unwrap();
-                let c = H::new(Sm::clone(&h.0));
-                if c.payload_ptr() == h.payload_ptr() {
-                    let now = tracker.live.fetch_add(1, StdOrd::SeqCst) + 1;
-                    tracker.max_live.fetch_max(now, StdOrd::SeqCst);
-                    tracker.shared_clones.fetch_add(1, StdOrd::SeqCst);
-                    handles.push(c);
-                    results.push(0);
-                } else {
-                    copies.push(c);
-                    results.push(1);
-                }
+                let r = match lent {
+                    // SAFETY: as above
+                    Some(p) => do_clone(unsafe { &(*p).0 }, &mut handles, &mut copies, &tracker),
+                    None => {
+                        let c = H::new(Sm::clone(&handles.last().unwrap().0));
+                        if c.payload_ptr() == handles.last().unwrap().payload_ptr() {
+                            let now = tracker.live.fetch_add(1, StdOrd::SeqCst) + 1;
+                            tracker.max_live.fetch_max(now, StdOrd::SeqCst);
+                            tracker.shared_clones.fetch_add(1, StdOrd::SeqCst);
+                            handles.push(c);
+                            0
+                        } else {
+                            copies.push(c);
+                            1
+                        }
+                    }
+                };
+                results.push(r);
             }
             Act::Drop => {
+                assert!(lent.is_none(), "HIPVERIF internal: drop while a handle is lent");
                 uaf_check(&tracker, t, "drop");
                 let h = handles.pop().unwrap();
                 tracker.live.fetch_sub(1, StdOrd::SeqCst);
@@ -245,6 +323,7 @@ fn thread_body(
                 results.push(usize::from(freed_now(&tracker)));
             }
             Act::Mutate => {
+                assert!(lent.is_none(), "HIPVERIF internal: mutate while a handle is lent");
                 uaf_check(&tracker, t, "mutate");
                 let h = handles.last_mut().unwrap();
                 let r = if let Some(p) = h.0.as_mut() {
@@ -258,6 +337,7 @@ fn thread_body(
                 results.push(r);
             }
             Act::Unwrap => {
+                assert!(lent.is_none(), "HIPVERIF internal: unwrap while a handle is lent");
                 uaf_check(&tracker, t, "unwrap");
                 let h = handles.pop().unwrap();
                 tracker.live.fetch_sub(1, StdOrd::SeqCst);
@@ -278,16 +358,18 @@ fn thread_body(
                 }
             }
             Act::Send(u) => {
+                assert!(lent.is_none(), "HIPVERIF internal: send while a handle is lent");
                 let h = handles.pop().unwrap();
                 if let Err(e) = txs[u].send(h) {
                     e.0.leak();
                     panic!("HIPVERIF internal: send on a closed channel");
                 }
             }
-            Act::Recv => unreachable!(),
+            Act::Recv | Act::Join | Act::CloneRef | Act::ReadRef => unreachable!(),
         }
     }
-    ThreadOut { results, handles, copies, rx }
+    assert!(lent.is_none() && to_join.is_empty(), "HIPVERIF internal: lender finished without `join`");
+    ThreadOut { results, handles, copies, rx, joined }
 }
 
 struct Sink {
@@ -332,20 +414,54 @@ fn run_once(prog: &Prog, sink: &Sink) {
         rxs.resize_with(n, || None);
     }
 
-    let mut joins = Vec::new();
+    // initial handles per thread; a lender's LAST handle moves to a stable heap slot
+    let mut inputs: Vec<Option<ThreadIn>> = Vec::new();
     for t in 0..n {
-        let handles: Vec<H> = pool.drain(..prog.h[t]).collect();
-        let acts = prog.threads[t].clone();
-        let my_txs = txs.clone();
-        let rx = rxs[t].take();
-        let tr = tracker.clone();
-        joins.push(loom::thread::spawn(move || thread_body(t, acts, handles, my_txs, rx, tr)));
+        let mut handles: Vec<H> = pool.drain(..prog.h[t]).collect();
+        let lent = if prog.borrowers_of(t).is_empty() {
+            None
+        } else {
+            Some(Box::into_raw(Box::new(handles.pop().expect("lender without handle"))))
+        };
+        inputs.push(Some(ThreadIn {
+            t,
+            acts: prog.threads[t].clone(),
+            handles,
+            txs: txs.clone(),
+            rx: rxs[t].take(),
+            tracker: tracker.clone(),
+            lent,
+            borrowed: None,
+            to_join: Vec::new(),
+        }));
     }
     drop(txs);
-    let mut outs: Vec<ThreadOut> = Vec::new();
-    for j in joins {
-        outs.push(j.join().expect("HIPVERIF internal: program thread panicked"));
+    // borrowers first: their JoinHandles go to their lender, which joins them at its `join`
+    // action (the hand-out of the reference is ordered by the spawn, like `thread::scope`)
+    for &(b, l) in &prog.refs {
+        let slot = inputs[l].as_ref().unwrap().lent.unwrap() as *const H;
+        let mut input = inputs[b].take().unwrap();
+        input.borrowed = Some(slot);
+        let j = loom::thread::spawn(move || thread_body(input));
+        inputs[l].as_mut().unwrap().to_join.push((b, j));
     }
+    let mut joins = Vec::new();
+    for t in 0..n {
+        if let Some(input) = inputs[t].take() {
+            joins.push((t, loom::thread::spawn(move || thread_body(input))));
+        }
+    }
+    let mut by_thread: Vec<Option<ThreadOut>> = Vec::new();
+    by_thread.resize_with(n, || None);
+    for (t, j) in joins {
+        let mut o = j.join().expect("HIPVERIF internal: program thread panicked");
+        for (b, bo) in o.joined.drain(..) {
+            by_thread[b] = Some(bo);
+        }
+        by_thread[t] = Some(o);
+    }
+    let outs: Vec<ThreadOut> =
+        by_thread.into_iter().map(|o| o.expect("HIPVERIF internal: thread never joined")).collect();
 
     // ---- outcome: evaluated BEFORE the leftover handles are dropped ----
     let freed = tracker.freed();
@@ -436,7 +552,13 @@ fn run_once(prog: &Prog, sink: &Sink) {
             // back from the ceiling to the true number of handles
             leftovers[0].0.verif_set_count(leftovers.len());
         }
-        drop(leftovers);
+        // drop the leftover handles one by one: the payload must be freed by the LAST one
+        // (`Payload::drop` reports `freed-while-alive` if it runs while `live` > 0; the handles
+        // still in the Vec are then leaked by the unwinding)
+        while let Some(h) = leftovers.pop() {
+            tracker.live.fetch_sub(1, StdOrd::SeqCst);
+            drop(h);
+        }
         let after = tracker.freed();
         assert!(
             after == 1,
@@ -452,7 +574,7 @@ fn run_once(prog: &Prog, sink: &Sink) {
 #[derive(Clone, Debug)]
 pub struct LoomResult {
     /// ok | race | double-free | use-after-free | leak | content | unique-while-shared |
-    /// count-mismatch |
+    /// count-mismatch | freed-while-alive |
     /// deadlock | branch-limit | error
     pub verdict: String,
     /// outcome string -> number of executions that produced it
@@ -474,6 +596,8 @@ fn classify(msg: &str) -> &'static str {
         "leak"
     } else if msg.contains("monitor: content") {
         "content"
+    } else if msg.contains("monitor: buffer freed while") {
+        "freed-while-alive"
     } else if msg.contains("monitor: unique access granted") {
         "unique-while-shared"
     } else if msg.contains("shared the buffer beyond the share-count ceiling") {
@@ -503,6 +627,7 @@ pub fn is_monitor(verdict: &str) -> bool {
             | "content"
             | "unique-while-shared"
             | "count-mismatch"
+            | "freed-while-alive"
     )
 }
 
